@@ -275,24 +275,42 @@ class AutoSerialize:
                 root = zarr.group(store=store_obj, overwrite=True)
                 self._recursive_save(self, root, skip_names, skip_types, compressors)
                 write_skip_metadata(root)
-                # Zip up all files in tempdir
-                with ZipFile(path, mode="w") as zf:
-                    for dirpath, _, filenames in os.walk(tmpdir):
-                        for filename in filenames:
-                            full_path = os.path.join(dirpath, filename)
-                            rel_path = os.path.relpath(full_path, tmpdir)
-                            zf.write(full_path, arcname=rel_path)
+                # Zip up all files in tempdir into a temporary sibling of the target and move it
+                # into place only when complete, so a failed save never leaves a partial archive
+                tmp_zip = f"{path}.{os.getpid()}.tmp"
+                try:
+                    with ZipFile(tmp_zip, mode="w") as zf:
+                        for dirpath, _, filenames in os.walk(tmpdir):
+                            for filename in filenames:
+                                full_path = os.path.join(dirpath, filename)
+                                rel_path = os.path.relpath(full_path, tmpdir)
+                                zf.write(full_path, arcname=rel_path)
+                    os.replace(tmp_zip, path)
+                except BaseException:
+                    if os.path.exists(tmp_zip):
+                        os.remove(tmp_zip)
+                    raise
         elif store == "dir":
             # Directory mode requires no extension
             if os.path.splitext(path)[1]:
                 raise ValueError(
                     f"Expected a directory path for store='dir', but got file-like path '{path}'"
                 )
-            os.makedirs(path, exist_ok=True)
-            store_obj = LocalStore(path)
-            root = zarr.group(store=store_obj, overwrite=True)
-            self._recursive_save(self, root, skip_names, skip_types, compressors)
-            write_skip_metadata(root)
+            # Write into a temporary sibling directory and move it into place only when complete,
+            # so a failed save never leaves a loadable partial object at the target
+            tmp_path = f"{path}.{os.getpid()}.tmp"
+            if os.path.exists(tmp_path):
+                shutil.rmtree(tmp_path)
+            os.makedirs(tmp_path)
+            try:
+                store_obj = LocalStore(tmp_path)
+                root = zarr.group(store=store_obj, overwrite=True)
+                self._recursive_save(self, root, skip_names, skip_types, compressors)
+                write_skip_metadata(root)
+                os.replace(tmp_path, path)
+            except BaseException:
+                shutil.rmtree(tmp_path, ignore_errors=True)
+                raise
         else:
             raise ValueError(f"Unknown store type: {store}")
 
